@@ -141,7 +141,7 @@ def _open_post(ctx):
         classes.append("C01:threshold-none")
     sig = (fmt, blanks, keep, rec["thr"], tuple(sorted(nclasses)), tuple(sorted(lcs)), kinds)
     case = {"call": "roundtrip", "tg": s, "format": fmt, "blanks": blanks, "keep_empty": keep, "thr": rec["thr"], "int_typed": _int_typed[0]}
-    mech = {"format": fmt, "text_format": fmt in TC.TEXT_FORMATS, "keyword": tggen.data_splits_reader(data),
+    mech = {"format": fmt, "text_format": fmt in TC.TEXT_FORMATS, "keyword": tggen.data_splits_reader(data, {"long_textgrid": "long", "short_textgrid": "short"}.get(fmt)),
             "exc": type(ctx.exc).__name__ if ctx.exc else None}
     REC.outcome("roundtrip", ctx.exc)
     nontrivial = any(t["entries"] for t in s["tiers"])
@@ -234,7 +234,7 @@ def roundtrip(tg, data, work, fmt, blanks, keep, thr, k):
         if judgeable(rec) is None:
             REC.violation(PROP, "roundtrip", "save", {"call": "roundtrip", "tg": rec["snap"], "format": fmt, "blanks": blanks, "keep_empty": keep, "thr": thr},
                           "save(%s, includeBlankSpaces=%s) of a well-formed textgrid raised %s: %s" % (fmt, blanks, type(e).__name__, e), ("save-raised", fmt),
-                          {"format": fmt, "text_format": fmt in TC.TEXT_FORMATS, "keyword": tggen.data_splits_reader(data), "exc": type(e).__name__, "step": "save"})
+                          {"format": fmt, "text_format": fmt in TC.TEXT_FORMATS, "keyword": tggen.data_splits_reader(data, {"long_textgrid": "long", "short_textgrid": "short"}.get(fmt)), "exc": type(e).__name__, "step": "save"})
         return
     try:
         back = tgmod.openTextgrid(fn1, keep, omode, dmode)
@@ -253,7 +253,7 @@ def roundtrip(tg, data, work, fmt, blanks, keep, thr, k):
     if judgeable(rec) is not None:
         return
     case = {"call": "fixedpoint", "tg": s, "format": fmt, "blanks": blanks, "keep_empty": keep, "thr": thr, "int_typed": _int_typed[0]}
-    mech = {"format": fmt, "text_format": fmt in TC.TEXT_FORMATS, "keyword": tggen.data_splits_reader(data), "step": "fixedpoint"}
+    mech = {"format": fmt, "text_format": fmt in TC.TEXT_FORMATS, "keyword": tggen.data_splits_reader(data, {"long_textgrid": "long", "short_textgrid": "short"}.get(fmt)), "step": "fixedpoint"}
     try:
         with core.paused():
             back.save(fn2, fmt, blanks, None, None, thr, "silence")
